@@ -5,13 +5,14 @@
 (* (Engine = "any") or with the transcribed middle pick (Engine = "ref").   *)
 EXTENDS Bisect, TLC, Json
 
-CONSTANTS MaxNodes, SubRanges, WithSkips, Engine, ExcludeFinding, Bug, Emit
+CONSTANTS MaxNodes, Shape, SubRanges, WithSkips, Engine, ExcludeFinding, Bug, Emit
 
 VARIABLES dag, phase      \* the graph under construction; "build" | "run"
 vars == <<dag, phase, p, good, bad, skipped, evals, result>>
 
 N == Len(dag)
-ParentChoices == {<<>>} \cup {<<a>> : a \in 1..N} \cup {s \in (1..N) \X (1..N) : s[1] < s[2]}
+ParentChoices == IF Shape = "linear" THEN (IF N = 0 THEN {<<>>} ELSE {<<N>>})
+                 ELSE {<<>>} \cup {<<a>> : a \in 1..N} \cup {s \in (1..N) \X (1..N) : s[1] < s[2]}
 
 Dummy == [par |-> <<>>, rng |-> {}, X |-> {}, S |-> {}]
 
